@@ -346,6 +346,10 @@ func genC10(g *Gen, tier string, emit func(op string, args ...string)) {
 		emit("short", itoa(v))
 	}
 	emit("short", "65535")
+	// (whatever the step: the values next to a change of octet, of sign and of width)
+	for _, v := range []int{1, 127, 128, 254, 255, 256, 257, 511, 512, 32766, 32767, 32768, 32769, 65279, 65280, 65534} {
+		emit("short", itoa(v))
+	}
 	n := 2500
 	if tier == "thorough" {
 		n = 40000
